@@ -102,6 +102,14 @@ func peek(r io.Reader, b []byte) (shouldRewind bool, err error) {
 	if br, ok := r.(*bufio.Reader); ok {
 		var bs []byte
 		bs, err = br.Peek(len(b))
+		if err == bufio.ErrBufferFull && len(bs) == 0 {
+			// The reader's buffer is smaller than b and holds nothing: Peek hides the reader's real state (end of input or
+			// a read error) behind ErrBufferFull, so get it with a byte read
+			if _, err = br.ReadByte(); err == nil {
+				br.UnreadByte()
+				err = bufio.ErrBufferFull
+			}
+		}
 		if err != nil {
 			if err == io.EOF && len(bs) > 0 {
 				// An input shorter than b is not an error here: the caller decides based on what could be read
